@@ -184,8 +184,11 @@ template <class T> void strong_typedef_ops(unsigned part, unsigned nparts)
                   ll(V(old)), ll(V(x)));
       }
       VRT_CHECK(fcppt::strong_typedef_hash<st>{}(s) == fcppt::strong_typedef_hash<st>{}(st{a}) &&
-                    std::hash<st>{}(s) == fcppt::strong_typedef_hash<st>{}(s),
+                    std::hash<st>{}(s) == std::hash<st>{}(st{a}),
                 fam + ":hash_deterministic", "hash of st(%lld) not reproducible", ll(A));
+      // audit class (C): that std::hash and strong_typedef_hash give the *same number* is not promised
+      if (std::hash<st>{}(s) != fcppt::strong_typedef_hash<st>{}(s))
+        vrt::count("info:" + fam + ":std_hash_differs_from_strong_typedef_hash");
       // type_iso: decorate / undecorate are inverse and expose exactly the value
       using tr = fcppt::type_iso::transform<st>;
       static_assert(std::is_same_v<typename tr::undecorated_type, T>);
